@@ -427,8 +427,10 @@ def gen_funcs(rng, tier, rest_groups):
     return out
 
 
-CERT_KINDS = ["", "good", "missing", "garbage", "mismatch"]
-KEY_KINDS = ["", "good", "missing", "garbage"]
+# "bundle": ONE PEM file holding the server certificate AND its private key (built in the work directory from testcerts/):
+# the file content class that matters when a tree starts to look for the key in the certificate file
+CERT_KINDS = ["", "good", "missing", "garbage", "mismatch", "bundle"]
+KEY_KINDS = ["", "good", "missing", "garbage", "bundle"]
 CA_KINDS = ["", "good", "missing", "garbage", "other"]
 
 
@@ -442,6 +444,11 @@ def gen_tls(rng, tier):
     if tier == "quick":
         out += [cfg(c, k, v, a, b"", False) for (c, k, v, a) in flags]
         out += [cfg(c, k, v, a, pw, True) for (c, k, v, a) in flags for pw in (b"", b"Secret1")]
+        # a certificate file that also contains the key, with and without a key option, with client verification
+        out += [cfg("bundle", "", v, a, b"", True) for v in (False, True) for a in ("", "good")]
+        out += [cfg("bundle", "", False, "", b"Secret1", True), cfg("bundle", "", False, "", b"", False), cfg("bundle", "", True, "good", b"", False),
+                cfg("bundle", "bundle", False, "", b"", True), cfg("bundle", "bundle", True, "good", b"Secret1", True),
+                cfg("good", "bundle", False, "", b"", True), cfg("bundle", "good", False, "good", b"", True)]
         bad = [x for x in full if x not in flags]
         for (c, k, v, a) in rng.sample(bad, 24):
             out.append(cfg(c, k, v, a, rng.choice([b"", b"Secret1"]), rng.random() < 0.75))
@@ -716,9 +723,14 @@ def tls_paths(ctx):
     d.mkdir(exist_ok=True)
     (d / "garbage.pem").write_text("-----BEGIN NOTHING-----\nthis is not PEM material\n")
     missing = str(d / "does-not-exist.pem")
+    try:
+        (d / "bundle.pem").write_bytes((T / "server_cert.pem").read_bytes().rstrip(b"\n") + b"\n" + (T / "server_key.pem").read_bytes())
+    except OSError:
+        (d / "bundle.pem").write_text("")
+    bundle = str(d / "bundle.pem")
     return {
-        "cert": {"": "", "good": str(T / "server_cert.pem"), "missing": missing, "garbage": str(d / "garbage.pem"), "mismatch": str(T / "client_cert.pem")},
-        "key": {"": "", "good": str(T / "server_key.pem"), "missing": missing, "garbage": str(d / "garbage.pem")},
+        "cert": {"": "", "good": str(T / "server_cert.pem"), "missing": missing, "garbage": str(d / "garbage.pem"), "mismatch": str(T / "client_cert.pem"), "bundle": bundle},
+        "key": {"": "", "good": str(T / "server_key.pem"), "missing": missing, "garbage": str(d / "garbage.pem"), "bundle": bundle},
         "ca": {"": "", "good": str(T / "client_ca_cert.pem"), "missing": missing, "garbage": str(d / "garbage.pem"), "other": str(T / "ca_cert.pem")},
         "client": {"server_ca": str(T / "ca_cert.pem"), "client_cert": str(T / "client_cert.pem"), "client_key": str(T / "client_key.pem")},
         "testcerts_present": all((T / f).exists() for f in ("server_cert.pem", "server_key.pem", "client_ca_cert.pem", "ca_cert.pem", "client_cert.pem", "client_key.pem")),
@@ -1375,7 +1387,7 @@ def fill_coverage(ctx, results, S):
                    "credential shapes (missing, empty, wrong, prefixes/extensions/case variants of the right password, other schemes, XBasic, doubled Basic, lower-case scheme, wrong header "
                    "names, damaged base64, padding variants, colon variants, non-ASCII, long values, several header lines) generated from one random.Random(VERIF_SEED) stream for "
                    "several configured passwords, each on every gateway route, POST/DELETE /session and a sample of other methods/paths (REST, real handler in-process) and on every unary "
-                   "method of the service descriptor (gRPC, real server over loopback); TLS: flag combinations cert/key/verify/CA with files present, absent, missing or unparsable x password "
+                   "method of the service descriptor (gRPC, real server over loopback); TLS: flag combinations cert/key/verify/CA with files present, absent, missing, unparsable or a combined certificate+key bundle x password "
                    "x REST on/off, one child process each, probed with a plaintext client, a TLS client without and one with a client certificate (quick: all 16 set/unset combinations + a "
                    "seeded sample of bad-file variants; thorough: the full matrix). evaluations = judged observations + strings of the library-function differential; distinct_nontrivial = "
                    "distinct (password, route, headers) / (password, method, metadata) with a password configured + distinct TLS configurations with anything configured")
